@@ -568,7 +568,7 @@ func TestC12(t *testing.T) {
 	if explicit {
 		return
 	}
-	vcore.Check(t, vcore.N(1500, 5000), func(rt *rapid.T) {
+	vcore.Check(t, vcore.N(1500, 15000), func(rt *rapid.T) {
 		c := gen(rt)
 		v, s := run(c)
 		account(c, s)
